@@ -268,4 +268,13 @@ Theorem C16_fish_alias_without_primary_refuted :
     In (s, true) (a_short_aliases o) /\ ~ mentions lines (short_word s).
 Proof. exact fish_alias_without_primary_refuted. Qed.
 Print Assumptions C16_fish_alias_without_primary_refuted.
+
+(** [generate] = [set_bin_name] + [build] + generator: the file it writes is the file of the built tree, which
+    has the bin name -- so [C16_fish_mentions] speaks about what [generate_fish] writes *)
+From ClapModel Require Import Complete.FishBuildProofs.
+Theorem C16_fish_generate_is_built : forall c d bin b,
+  build (set_bin_name c bin) = Some b ->
+  c_bin b = Some bin /\ generate_fish c d bin = fish_script b (dbuild (set_bin_name c bin) d).
+Proof. exact generate_fish_is_built. Qed.
+Print Assumptions C16_fish_generate_is_built.
 (* ---- end fish generator model ---- *)
